@@ -134,6 +134,15 @@ def run(ctx):
     ctx.sample({"harness": "sys_quiet", "cmds": cmds[:2], "impl_out": out[:2]}, cap=8)
     ctx.assumptions += ["K-epoll: level-triggered epoll semantics; an eventfd(1) that is never read stays readable",
                         "the control interface's descriptors are idle (no ctl client) during sys_quiet"]
+    # the dispatch layer xcm_tp.c: every call re-evaluates the registrations (update is the last transport call)
+    from gen import tp as _tp
+    texe = _tp.build()
+    tops = _tp.exhaustive()
+    for k in range(30 if ctx.tier == "quick" else 800):
+        tops += _tp.gen_history(ctx.rng.fork("tp%d" % k), 40, ctx)
+    m, il = ctx.differential("unit_tp", "tp", texe, tops, label="tp")
+    _tp.Monitor(ctx).run(tops, il)
+    ctx.rule += (" unit_tp: the real xcm_tp.c wrappers over a logging transport vs the Lean Tp model (update follows every send/receive/finish).")
     # the TLS connection machine (xcm_tp_btls.c) against the Lean Btls model, with its monitors
     from gen import btls as _btls
     _btls.run_part(ctx, 10 if ctx.tier == "quick" else 300, exhaustive=True)
@@ -142,6 +151,9 @@ def run(ctx):
 
 def replay(path):
     r = json.load(open(path))
+    if r.get("harness") == "unit_tp":
+        from gen.props import C04
+        return C04.replay(path)
     if r.get("harness") == "unit_btls":
         from gen import btls as _btls
         return _btls.replay(r)
